@@ -67,6 +67,8 @@ func genWitnessConsts(repo string) (string, error) {
 	}
 	fmt.Fprintf(&b, "def condTypeNames : List String := [%s]\n", strings.Join(names, ", "))
 	fmt.Fprintf(&b, "def actionNames : List String := [%q, %q]\n", transaction.WitnessDeny.String(), transaction.WitnessAllow.String())
+	fmt.Fprintf(&b, "def scopeNames : List String := [%q, %q, %q, %q, %q, %q]\n", transaction.None.String(), transaction.CalledByEntry.String(),
+		transaction.CustomContracts.String(), transaction.CustomGroups.String(), transaction.Rules.String(), transaction.Global.String())
 	b.WriteString("end NeoModel.Generated.WitnessConsts\n")
 	return b.String(), nil
 }
